@@ -31,6 +31,7 @@ int  oracle_fail_count();
 // event checkers (events.cc)
 void events_install();            // installs the sink
 void events_summarize(J &out);    // SRM + segment checker summaries; failures are reported through oracle_fail
+void events_tool_usage(J &out);   // per-block tool usage counters (decoder parse hook)
 
 // worlds
 void run_enc_world();   // also api programs and multi-instance
